@@ -24,12 +24,16 @@
 (* are stated on `ev` and the final object states; TraceAuxCallbacks.tla   *)
 (* reuses the actions to validate recorded runs.                           *)
 (*                                                                         *)
-(* Modelled as the code stands (deviation candidates, see the harness      *)
-(* report): Timer.already_notified is never reset (LatchPerObject);        *)
-(* LivePlotting raises when the evaluator has no record at a redraw and    *)
-(* on every redraw of ObservableEvaluator records; ax.clear() undoes the   *)
-(* x-limits that total_epochs set; progbar="notebook" without a widget     *)
-(* toolkit raises ImportError after on_train_start was dispatched.         *)
+(* Modelled as the code stands - named deviations, each can be switched    *)
+(* to the documented / natural reading, and the harness shows that the     *)
+(* real classes refute that reading:                                       *)
+(*   LatchPerObject         Timer.already_notified is never reset          *)
+(*   DevObsRecordsRaise     LivePlotting raises on every redraw of         *)
+(*                          ObservableEvaluator records                    *)
+(*   DevEmptyHistoryRaises  ... and when the evaluator has no record yet   *)
+(*   DevClearForgetsXlim    ax.clear() undoes the x-limits of total_epochs *)
+(*   NbWidgets = FALSE      progbar="notebook" without a widget toolkit    *)
+(*                          raises ImportError AFTER on_train_start        *)
 (***************************************************************************)
 EXTENDS Integers, Sequences, FiniteSets, TLC
 
